@@ -59,6 +59,7 @@ type rtEnv struct {
 	facs  map[string]any
 	last  seen
 	mwlog []string
+	shared map[string][]types.Middleware[*H] // middleware arrays several calls take prefixes of
 	// behaviour executed by the CallFunc after recording (used by other suites)
 	behave func(w http.ResponseWriter, req *http.Request, h *H)
 }
@@ -184,6 +185,32 @@ func takeList(f []string) (items, rest []string) {
 }
 
 func (e *rtEnv) mws(ids []string) []types.Middleware[*H] {
+	// ids "S<k>.0" … "S<k>.<n-1>" name the first n elements of one shared array of four middlewares: the call
+	// gets a slice of that array (spare capacity behind it, as in `common[:n]...`), so a callee that appends
+	// to its argument in place would overwrite what a later call passes
+	if len(ids) > 0 && len(ids) <= 4 && strings.HasPrefix(ids[0], "S") && strings.HasSuffix(ids[0], ".0") {
+		grp := strings.TrimSuffix(ids[0], ".0")
+		ok := true
+		for i, id := range ids {
+			if id != grp+"."+itoa(i) {
+				ok = false
+			}
+		}
+		if ok {
+			if e.shared == nil {
+				e.shared = map[string][]types.Middleware[*H]{}
+			}
+			arr, has := e.shared[grp]
+			if !has {
+				arr = make([]types.Middleware[*H], 4)
+				for i := range arr {
+					arr[i] = mwT{id: grp + "." + itoa(i), log: &e.mwlog}
+				}
+				e.shared[grp] = arr
+			}
+			return arr[:len(ids)]
+		}
+	}
 	out := make([]types.Middleware[*H], 0, len(ids))
 	for _, id := range ids {
 		out = append(out, mwT{id: id, log: &e.mwlog})
@@ -229,6 +256,19 @@ func urlOutcome(f func() (string, error)) []string {
 // serve runs one request through h and returns the observation fields.
 func (e *rtEnv) serve(h http.Handler, method, path, host string, hdr http.Header) ([]string, *httptest.ResponseRecorder) {
 	req := &http.Request{Method: method, URL: &url.URL{Path: path}, Header: hdr, Host: host, Proto: "HTTP/1.1", ProtoMajor: 1, ProtoMinor: 1}
+	if len(path)%2 == 0 && strings.HasPrefix(path, "/") {
+		// what net/http hands over when the client escaped more than it had to: Path is the decoded path, RawPath
+		// the spelling on the wire (here: every byte but '/' percent-encoded).  Dispatch is defined on Path.
+		var sb strings.Builder
+		for i := 0; i < len(path); i++ {
+			if path[i] == '/' {
+				sb.WriteByte('/')
+			} else {
+				fmt.Fprintf(&sb, "%%%02X", path[i])
+			}
+		}
+		req.URL.RawPath = sb.String()
+	}
 	if req.Header == nil {
 		req.Header = http.Header{}
 	}
